@@ -406,6 +406,33 @@ func genErrTree(out *sink, rnd *rand.Rand, thorough bool) {
 		out.put(rec{"f": "errtree", "r": r})
 	}
 	put(nilLeaf())
+	// deep trees, shaped as Decode builds them: Join(Join(Join(e1, e2), e3), ...), the earliest error deepest;
+	// and long Unwrap chains.  The rule holds for all finite trees, whatever their depth.
+	none := rec{"code": -1, "sub": 0, "data": []int{}}
+	join := func(a, b rec) rec { return rec{"t": "join", "n": none, "acode": 0, "id": 0, "kids": []rec{a, b}} }
+	for _, depth := range []int{8, 30, 31, 32, 33, 34, 48, 64} {
+		for _, first := range []string{"taw", "notif", "ad", "ue"} {
+			for _, rest := range []string{"ad", "taw", "foreign"} {
+				t := leaf(first, 1, true)
+				for k := 2; k <= depth; k++ {
+					t = join(t, leaf(rest, k, rest != "foreign"))
+				}
+				put(t)
+				// the most severe error last instead
+				t2 := leaf(rest, 1, rest != "foreign")
+				for k := 2; k < depth; k++ {
+					t2 = join(t2, leaf(rest, k, rest != "foreign"))
+				}
+				put(join(t2, leaf(first, depth, true)))
+			}
+			w := leaf(first, 7, true)
+			for k := 0; k < depth; k++ {
+				w = rec{"t": "wrap", "n": none, "acode": 0, "id": 100 + k, "kids": []rec{w}}
+			}
+			put(w)
+			put(join(leaf("ad", 3, true), w))
+		}
+	}
 	for i := 0; i < n; i++ {
 		id := 0
 		put(mkTree(rnd, 1+rnd.Intn(3), &id))
